@@ -198,6 +198,12 @@ func checkC06(p *Prog, res *Result, tier string) {
 		for _, o := range sub5.Obls {
 			res.add("C06-R7", o.Rule+" "+o.Construct, o.Status, o.Pos, o.Detail)
 		}
+		// .. and resume exactly after the cached events that were replayed (C05-R1)
+		for _, o := range p.subResult("C05", tier).Obls {
+			if o.Rule == "C05-R1" {
+				res.add("C06-R7", o.Rule+" "+o.Construct, o.Status, o.Pos, o.Detail)
+			}
+		}
 	}
 
 	// ---- R3 ----
